@@ -407,7 +407,7 @@ pub fn run_worker<P: Prop>(a: WorkArgs) -> anyhow::Result<()> {
         let mut rng = Rng::seed_from_u64(cseed);
         // "<lane>-release" lanes run the generator of <lane> in the plain release build
         let gen_lane = a.lane.strip_suffix("-release").unwrap_or(&a.lane);
-        let case = P::generate(&mut rng, a.tier, gen_lane);
+        let case = gen_case::<P>(&mut rng, a.tier, gen_lane);
         let mut obs = Obs::default();
         if let Err((loc, msg)) = catch(|| P::check(&case, &mut obs)) {
             let file = loc.split(':').next().unwrap_or("?").to_string();
@@ -519,11 +519,28 @@ pub fn run_replay<P: Prop>(case: &Value) -> anyhow::Result<(Vec<Violation>, Vec<
     Ok((obs.violations, obs.inconclusive))
 }
 
+/// `P::generate` with the size multiplier of the `large` lanes: 10 (60%), 50 (30%) or 250 (10%) times
+/// the lengths of the ordinary generator, drawn from the case's own rng so that it replays.
+pub fn gen_case<P: Prop>(rng: &mut Rng, tier: Tier, lane: &str) -> P::Case {
+    use rand::Rng as _;
+    if lane == "large" {
+        let k = match rng.random_range(0..10) {
+            0..=5 => 10,
+            6..=8 => 50,
+            _ => 250,
+        };
+        crate::gen::set_scale(k);
+    }
+    let case = P::generate(rng, tier, lane);
+    crate::gen::set_scale(1);
+    case
+}
+
 /// regenerate the case of (lane, case seed) without running it
 pub fn describe_case<P: Prop>(tier: Tier, lane: &str, cseed: u64) -> Value {
     let mut rng = Rng::seed_from_u64(cseed);
     let lane = lane.strip_suffix("-release").unwrap_or(lane);
-    let case = P::generate(&mut rng, tier, lane);
+    let case = gen_case::<P>(&mut rng, tier, lane);
     serde_json::to_value(&case).unwrap_or(Value::Null)
 }
 
@@ -540,7 +557,7 @@ pub fn run_inprocess<P: Prop>(tier: Tier, seed: u64, lane: &str, shard: u64, nsh
     while idx < cases {
         let cseed = case_seed(seed, P::ID, lane, idx);
         let mut rng = Rng::seed_from_u64(cseed);
-        let case = P::generate(&mut rng, tier, lane);
+        let case = gen_case::<P>(&mut rng, tier, lane);
         let mut obs = Obs::default();
         if let Err((loc, msg)) = catch(|| P::check(&case, &mut obs)) {
             let file = loc.split(':').next().unwrap_or("?").to_string();
